@@ -68,3 +68,16 @@ def _(self):
             min(self._image_shape[0], self._image_shape[1], trunc(3 * self._sigma_space + 1)) * self._step,
             min(self._image_shape[0], self._image_shape[1], trunc(3 * self._sigma_space + 1)) * self._step,
             min(self._image_shape[0], self._image_shape[1], trunc(3 * self._sigma_space + 1)) * self._step))
+
+
+# C20 "the global margins are, per side, the larger of the sum of the cumulative ones and each non-cumulative one": the "larger of",
+# for sequences of one, two and three margins
+@contract("pandora.margins.margins.max_margins", props=["C20"])
+def _(margins):
+    types(margins="opaque")
+    type_cases(margins=[["margins"], ["margins", "margins"], ["margins", "margins", "margins"]])
+    option(no_fuzz=True)
+    raises_never()
+    ensures("is_an_upper_bound", all(result[k] >= m[k] for m in margins for k in [1, 2, 3, 4]))
+    ensures("is_attained", all(any(result[k] == m[k] for m in margins) for k in [1, 2, 3, 4]))
+    ensures("is_a_margins_record", result[0] == "Margins")
